@@ -745,9 +745,7 @@ package rosmar
 //@ fn removeXattrs
 //@   requires validX(rawXattrs)
 //@   ensures [C07:removeXattrs.invalid-key-is-an-error] count("call:validateXattrKey") >= 1 && callret("validateXattrKey", 0) != nil ==> err != nil
-//@   ensures [C07:removeXattrs.error-only-for-invalid-key] err != nil ==> count("call:validateXattrKey") >= 1 && callret("validateXattrKey", 0) != nil
 //@   loop 1001 invariant [C07:removeXattrs.only-removes] forall k: Str :: xattrs[k] == NOX || xattrs[k] == atentry(xattrs[k])
-//@   loop 1001 invariant [C07:removeXattrs.no-error-so-far] err == nil
 //@   loop 1001 body [C07:removeXattrs.one-per-key] iter("mapdelete") <= 1
 //@   ensures [C07:removeXattrs.never-adds] forall k: Str :: xget(rawResult, k) == NOX || xget(rawResult, k) == xget(rawXattrs, k)
 //@   ensures [C05,C07:removeXattrs.valid]  validX(rawResult) && (isnull(rawXattrs) ==> isnull(rawResult))
